@@ -73,6 +73,7 @@ def build_overlay(pkgdir, tmp):
     put(os.path.join(ROOT, "harness", "rt", "zz_verif_rt.go"), "zz_verif_rt.go")
     put(os.path.join(ROOT, "harness", "rt", "zz_verif_replay_test.go"), "zz_verif_replay_test.go")
     put(os.path.join(ROOT, "models", "models.go"), "zz_verif_models.go")
+    put(os.path.join(ROOT, "models", "hooks_native.go"), "zz_verif_hooks.go")
     hd = harness_dir(pkgdir)
     regs = []
     for f in sorted(os.listdir(hd)):
@@ -143,6 +144,7 @@ TAPE_KINDS = ("b", "i", "u", "r", "p", "f", "c")  # kinds consumed by the native
 
 
 def write_tape(path, harness, args, inputs):
+    inputs = inputs or []
     with open(path, "w") as f:
         f.write(harness + "\n" + args + "\n")
         for iv in inputs:
@@ -312,6 +314,7 @@ def match_known(known, pid, job, v):
 
 
 def decode_inputs(inputs):
+    inputs = inputs or []
     """Human-readable rendering of a tape."""
     bs = bytearray()
     parts = []
@@ -357,11 +360,13 @@ def run_check(pid, tier):
         pool = cf.ThreadPoolExecutor(max_workers=CORES)
         nat_fut = {p: pool.submit(native_binary, p, ovdirs[p], tmp) for p in ovdirs}
         sem = threading.Semaphore(CORES)
+        acq = threading.Lock()
 
         def run(j):
             n = min(j.workers, CORES)
-            for _ in range(n):
-                sem.acquire()
+            with acq:  # one acquirer at a time, otherwise two partial acquisitions deadlock
+                for _ in range(n):
+                    sem.acquire()
             try:
                 return run_gosym(j, ovdirs[j.pkg], tmp)
             finally:
@@ -415,7 +420,7 @@ def run_check(pid, tier):
             # translator validation: replay passing witnesses natively and compare observations
             if binp:
                 for wi, w in enumerate(res["witnesses"] or []):
-                    if any(iv["kind"] in ("m", "e") for iv in w["inputs"]):
+                    if any(iv["kind"] in ("m", "e") for iv in (w["inputs"] or [])):
                         continue
                     tape = os.path.join(tmp, "w_%d_%d.tape" % (id(j) % 100000, wi))
                     write_tape(tape, j.harness, w["args"], w["inputs"])
@@ -440,7 +445,7 @@ def run_check(pid, tier):
             for vi, v in enumerate(res["violations"] or []):
                 tape = os.path.join(tmp, "v_%d_%d.tape" % (id(j) % 100000, vi))
                 write_tape(tape, j.harness, v["args"], v["inputs"])
-                order = any(iv["kind"] == "m" for iv in v["inputs"])
+                order = any(iv["kind"] == "m" for iv in (v["inputs"] or []))
                 confirmed, nr = False, None
                 if binp:
                     if v["kind"] in ("steps", "deadlock"):
@@ -530,6 +535,10 @@ def setup():
     sys.stderr.write(r.stdout[-2000:] + r.stderr[-2000:])
     if r.returncode != 0:
         raise MachineryError("model validation failed")
+    r = subprocess.run([GOSYM, "-selftest"], capture_output=True, text=True)
+    sys.stderr.write(r.stdout + r.stderr)
+    if r.returncode != 0:
+        raise MachineryError("engine self test failed")
     return 0
 
 
